@@ -32,7 +32,7 @@ print(("failures: "+" ;; ".join(fs) if fs else "")+(" broken: "+" ;; ".join(bs) 
 PY
 )
     what=$(echo "$what" | tr '\n|' '  ' | cut -c1-420)
-    grep -v "^| $(basename $d) |" $OUT > $OUT.tmp; mv $OUT.tmp $OUT
+    grep -v "^| $(basename $d)[ |(]" $OUT > $OUT.tmp; mv $OUT.tmp $OUT
     echo "| $(basename $d)$([ "$pf" != "$PWD/$d/patch.diff" ] && echo " (ported)") | $rc | ${line:-none} | $what | $((t1-t0))s |" >> $OUT
     echo "$(basename $d): rc=$rc $line"
   done
